@@ -785,6 +785,17 @@ func (u *Unit) contractEffects(ct *Contract, eff *loopEffects, ptys map[string]t
 			if ct.Pkg != "" {
 				pk = u.P.AllPkgs[ct.Pkg]
 			}
+			if c, ok := ex.(ECall); ok && c.Fn == "mapof" && len(c.Args) == 1 {
+				if t := u.staticType(c.Args[0], ptys, pk); t != nil {
+					if m, ok := t.Underlying().(*types.Map); ok {
+						tk := typeKey(m)
+						eff.keys["maphas:"+tk] = true
+						eff.keys["mapval:"+tk] = true
+						eff.keys["maplen:"+tk] = true
+						continue
+					}
+				}
+			}
 			if c, ok := ex.(ECall); ok && c.Fn == "elems" && len(c.Args) == 1 {
 				if t := u.staticType(c.Args[0], ptys, pk); t != nil {
 					if sl, ok := t.Underlying().(*types.Slice); ok {
@@ -859,7 +870,7 @@ func (u *Unit) havocLoop(st *State, fr *Frame, li *loopInfo) {
 		if eff.external {
 			locals := u.notInLocals(u.unleakedLocals(fr))
 			pred := func(addr Term) Term { return And(locals(addr), u.notPrivate(addr)) }
-			st.AllHavocs = append(st.AllHavocs, pred)
+			st.AllHavocs = append(st.AllHavocs, u.newAllHavoc(pred))
 		}
 		if len(eff.sites) == 0 {
 			var ks []string
